@@ -6,9 +6,9 @@ package muxrun
 // is its host pool: whoever closes a pooled connection while holding the pool's lock dead-locks on itself.
 //
 //	cf  <proto> <nconn> <faults> <inflight> <late 0|1> <act>
-//	cfk ...   the excluded class of C06_pool_no_self_deadlock_partial (known finding): the connection that
-//	          finishes connecting AFTER its pool was closed has a faulty Close (hostConnPool.connect closes it
-//	          under pool.mu)
+//	cfk ...   (accepted as a synonym of cf: the class that was kept apart while KF-C06-1 was open - the connection
+//	          that finishes connecting AFTER its pool was closed has a faulty Close; since the repair of
+//	          hostConnPool.connect these scenarios are ordinary cf scenarios, spec-backed)
 //
 //	faults    string over {0,1}: connection number i (dial order, 1-based) has a faulty Close iff faults[(i-1) mod len] = 1
 //	inflight  queries that are written and never answered before the action: all must return
@@ -46,16 +46,17 @@ var errCloseNotify = errors.New("verif: close_notify: broken pipe")
 
 // selfDeadlocked looks for a goroutine that is blocked in pool.mu.Lock() inside HandleError while its own stack
 // is inside hostConnPool.connect's critical section: a state that can never be left.
-func selfDeadlocked() bool {
+func selfDeadlockedN() int {
 	buf := make([]byte, 1<<20)
 	n := runtime.Stack(buf, true)
+	k := 0
 	for _, g := range strings.Split(string(buf[:n]), "\n\n") {
 		if strings.Contains(g, "gocql.(*hostConnPool).HandleError") && strings.Contains(g, "gocql.(*hostConnPool).connect(") &&
 			strings.Contains(g, "sync.(*RWMutex).Lock") {
-			return true
+			k++
 		}
 	}
-	return false
+	return k
 }
 
 func RunCloseFault(line string) (ans string) {
@@ -90,6 +91,9 @@ func RunCloseFault(line string) (ans string) {
 		return "bad-op"
 	}
 	faulty := func(id int) bool { return faults[(id-1)%len(faults)] == '1' }
+	// (such goroutines of EARLIER scenarios of this process stay for ever: only new ones count)
+	dead0 := selfDeadlockedN()
+	selfDeadlocked := func() bool { return selfDeadlockedN() > dead0 }
 
 	// await waits for an event (channel closed) or a condition that is re-examined every millisecond (a pure wait:
 	// nothing is decided by how long it took); two watchdog windows without it = hang
@@ -272,17 +276,15 @@ func RunCloseFault(line string) (ans string) {
 		ph.HandleError(conns0[0], errCloseNotify)
 		ph.Close()
 	})
-	if w[0] == "cfk" {
-		if !await(mon, nil, "Pick / Size / HandleError / Close on the closed pool did not return", selfDeadlocked) {
-			// confirm: the state is permanent by construction, look twice all the same
-			time.Sleep(50 * time.Millisecond)
-			if selfDeadlocked() {
-				closedSession = true // Session.Close would wait for the lock the dead-locked goroutine holds
-				return "self-deadlock(connect>Conn.Close>HandleError)"
-			}
-			await(mon, nil, "Pick / Size / HandleError / Close on the closed pool did not return", nil)
+	// a goroutine that waits for pool.mu below a frame that holds it is a state that can never be left: it is
+	// recognised from the goroutine dump at once (an event, not a time-out) instead of waiting for the watchdog
+	if !await(mon, nil, "Pick / Size / HandleError / Close on the closed pool did not return", selfDeadlocked) {
+		// confirm: the state is permanent by construction, look twice all the same
+		time.Sleep(50 * time.Millisecond)
+		if selfDeadlocked() {
+			closedSession = true // Session.Close would wait for the lock the dead-locked goroutine holds
+			return "self-deadlock(connect>Conn.Close>HandleError)"
 		}
-	} else {
 		await(mon, nil, "Pick / Size / HandleError / Close on the closed pool did not return", nil)
 	}
 	if !closedSession {
@@ -322,17 +324,16 @@ func GenCloseFault(r *vh.Rng) (line, class string) {
 		any = true
 	}
 	opw := "cf"
-	if late && fb[nconn-1] == '1' {
-		if act == "S" || r.Intn(3) != 0 {
-			fb[nconn-1] = '0' // Session.Close also ends the handshake of the late connection: not this path
-		} else {
-			opw = "cfk"
-		}
+	if late && fb[nconn-1] == '1' && act == "S" {
+		fb[nconn-1] = '0' // Session.Close also ends the handshake of the late connection: not this path
 	}
 	inflight := []int{0, 0, 1, 3, 8}[r.Intn(5)]
 	class = opw + "/" + act
 	if late {
 		class += "/late-connect"
+		if fb[nconn-1] == '1' {
+			class += "-faulty-close" // (the history of KF-C06-1: connect() closes the late connection; its Close reports an error)
+		}
 	}
 	if any {
 		class += "/close-error"
